@@ -16,7 +16,7 @@
 From stdpp Require Import gmap.
 From Coq Require Import NArith ZArith.
 From P9 Require Import Model.Path Model.Session Model.FidSpec
-  Proofs.SessionProofs Proofs.SessionGhost Proofs.SessionClauses.
+  Proofs.SessionProofs Proofs.SessionGhost Proofs.SessionClauses Proofs.SessionCalls.
 Open Scope N_scope.
 
 (* released at most once *)
@@ -44,6 +44,23 @@ Print Assumptions C13_bound_once.
 Theorem C13_no_use_after : ∀ ops, no_stop ops → bad_use (after ops) = [].
 Proof. exact c13_no_use_after. Qed.
 Print Assumptions C13_no_use_after.
+
+(* the same on the call lists which the correspondence check compares with the calls arriving
+   at the real file system: every call of an operation goes to an entry that was not released
+   before the operation ... *)
+Theorem C13_calls_live : ∀ s o ts c e, reach s → is_stop o = false →
+  c ∈ (sstep s o ts).2 → call_ent c = Some e → e ∉ rel s.
+Proof. exact calls_live_reach. Qed.
+Print Assumptions C13_calls_live.
+
+(* ... namely to the entry bound to a fid when the operation starts or to an entry handed over
+   during the operation, and within the operation nothing follows a Clunk / Remove / Create-on-parent
+   of the same entry *)
+Theorem C13_calls_ordered : ∀ s o ts, reach s → is_stop o = false →
+  (∀ c e, c ∈ (sstep s o ts).2 → call_ent c = Some e → (∃ f, B s f e) ∨ e = next s) ∧
+  no_use_after (sstep s o ts).2.
+Proof. exact calls_ok_reach. Qed.
+Print Assumptions C13_calls_ordered.
 
 (* the release of a once-bound entry has one of the five causes of the property text:
    clunk, remove, consumed by a successful create, replaced by an in-place walk, stop *)
@@ -92,6 +109,17 @@ Proof. split_and!; try (vm_compute; reflexivity). repeat constructor. Qed.
 
 Example C13_ex_bound : B (after ex13_ops) 2 5 ∧ 5 ∈ bound_ever (after ex13_ops).
 Proof. split; [eexists _, _; vm_compute; done|vm_compute; set_solver]. Qed.
+
+Example C13_ex_calls :
+  (sstep (after (take 4 ex13_ops)) (OCreate 3 [110] 0) [Tok 0 true 0; Tok 1 false 0]).2
+  = [CCreate 3; COpenDir 4; CClunk 4]
+  ∧ no_use_after [CCreate 3; COpenDir 4; CClunk 4] ∧ ¬ no_use_after [CClunk 5; CRead 5].
+Proof.
+  split; [vm_compute; reflexivity|]. split.
+  - cbn. split_and!; try done; intros e [= <-] c' Hc; repeat (apply elem_of_cons in Hc as [->|Hc]); try done;
+      by apply elem_of_nil in Hc.
+  - intros [H _]. apply (H 5 eq_refl (CRead 5)); [apply elem_of_list_singleton|]; reflexivity.
+Qed.
 
 Example C13_ex_stop :
   released (after (ex13_ops ++ [(OStop, [])]))
